@@ -16,7 +16,7 @@ from typing import List, Tuple, Union
 
 from ..qcircuit import QCircuit
 from ..qlassfun import QlassF
-from ..types import Qtype, interpret_as_qtype
+from ..types import Qtype, format_outcome
 from .qalgorithm import QAlgorithm
 
 
@@ -67,5 +67,8 @@ class DeutschJozsa(QAlgorithm):
     def decode_output(
         self, istr: Union[str, int, List[bool]]
     ) -> Union[bool, Tuple, Qtype, str]:
-        iq = interpret_as_qtype(istr, self.f.args[0].ttype, len(self.f.args[0]))
-        return "Constant" if iq == 0 else "Balanced"
+        len_a = len(self.f.args[0])
+        # The input register is the last len_a characters of the measured string;
+        # it is all zeros iff f is constant, whatever the type of the argument
+        in_reg = list(reversed(format_outcome(istr, len_a)))[0:len_a]
+        return "Balanced" if any(in_reg) else "Constant"
